@@ -26,10 +26,13 @@
 //!     max N the listed set after every creation is exactly the last min(i, N) created, and each of them
 //!     can be rolled back to with its recorded observation vector.
 //!
-//! Both text entry points of the router are driven: a quarter of the cases send CHECKPOINT / ROLLBACK TO /
-//! CHECKPOINTS through `execute_parsed_async` (these have an async implementation of their own), another
-//! quarter send every statement incl. the observation vector through it, on a current-thread tokio runtime
-//! owned by the harness; signatures of what is seen after such a rollback carry `+async-entry`.
+//! All four statement entry points of the router are driven (`Cfg::async_mode`): execute_parsed,
+//! execute_parsed_async, and parse-then-execute_statement / execute_statement_async, either for CHECKPOINT /
+//! ROLLBACK TO / CHECKPOINTS only (the statements with an implementation of their own per entry point) or for
+//! every statement incl. the observation vector; async ones on a current-thread tokio runtime owned by the
+//! harness. Signatures of what is seen after a rollback that did not go through execute_parsed carry
+//! `+async-entry` / `+statement-entry` / `+async-statement-entry`. A quarter of the routers sit on a store with
+//! a Bloom filter (`QueryRouter::with_shared_store(TensorStore::with_bloom_filter(..))`).
 //!
 //! Variants per case (drawn from the case seed): auto-checkpoints on/off, 4-dim or 384-dim vectors,
 //! router query cache on (relational statements only), VectorEngine HNSW cache built after the checkpoint
@@ -114,11 +117,25 @@ struct Cfg {
     hnsw: bool,
     #[serde(default)]
     btree: bool,
-    /// which statements go through `execute_parsed_async` (on a current-thread tokio runtime owned by the
-    /// harness) instead of `execute_parsed`: 0 none, 1 CHECKPOINT / ROLLBACK TO / CHECKPOINTS (the statements
-    /// with an async implementation of their own), 2 every statement incl. the observation vector
+    /// entry points used instead of `execute_parsed` (async ones on a current-thread tokio runtime owned by
+    /// the harness). "cp" = CHECKPOINT / ROLLBACK TO / CHECKPOINTS, the statements with an implementation of
+    /// their own on the async side:
+    ///   0 none; 1 cp through execute_parsed_async; 2 every statement (incl. the observation vector)
+    ///   through execute_parsed_async; 3 cp through parse + execute_statement; 4 cp through parse +
+    ///   execute_statement_async; 5 every statement through parse + execute_statement
     #[serde(default)]
     async_mode: u8,
+    /// the router's shared store is built with a Bloom filter (TensorStore::with_bloom_filter)
+    #[serde(default)]
+    bloom: bool,
+}
+
+#[derive(Clone, Copy, Debug, PartialEq)]
+enum Entry {
+    Parsed,
+    ParsedAsync,
+    Stmt,
+    StmtAsync,
 }
 
 // ------------------------------------------------------------------------------------------------
@@ -412,7 +429,7 @@ struct Runner {
     cfg: Cfg,
     router: QueryRouter,
     rt: tokio::runtime::Runtime,
-    last_rb_async: bool,
+    last_rb_entry: Entry,
     queries: Vec<Q>,
     recs: HashMap<u32, CpRec>,
     /// checkpoints that must currently be listed, oldest first
@@ -445,7 +462,11 @@ fn names(ls: &[Listed], label_of: &HashMap<String, u32>) -> Vec<String> {
 
 impl Runner {
     fn new(cfg: &Cfg, trace: bool) -> Result<Runner, String> {
-        let mut router = QueryRouter::new();
+        let mut router = if cfg.bloom {
+            QueryRouter::with_shared_store(tensor_store::TensorStore::with_bloom_filter(10_000, 0.01))
+        } else {
+            QueryRouter::new()
+        };
         router.init_blob().map_err(|e| format!("init_blob: {}", e))?;
         router
             .init_checkpoint_with_config(CheckpointConfig::default().with_max_checkpoints(cfg.max_cp).with_auto_checkpoint(cfg.auto_cp))
@@ -458,7 +479,7 @@ impl Runner {
             cfg: cfg.clone(),
             router,
             rt,
-            last_rb_async: false,
+            last_rb_entry: Entry::Parsed,
             queries: all_queries(cfg),
             recs: HashMap::new(),
             expected: Vec::new(),
@@ -479,29 +500,47 @@ impl Runner {
         })
     }
 
-    fn goes_async(&self, s: &str) -> bool {
+    fn entry_for(&self, s: &str) -> Entry {
+        let up = s.trim_start().to_ascii_uppercase();
+        let cp = up.starts_with("CHECKPOINT") || up.starts_with("ROLLBACK");
         match self.cfg.async_mode {
-            0 => false,
-            1 => {
-                let up = s.trim_start().to_ascii_uppercase();
-                up.starts_with("CHECKPOINT") || up.starts_with("ROLLBACK")
-            }
-            _ => {
-                // NODE LIST / EDGE LIST / FIND build a tokio runtime of their own and block on it; awaited
-                // from any runtime they panic ("Cannot start a runtime from within a runtime"). That is a
-                // defect of the async entry point but not one of this property, so they stay synchronous.
-                let up = s.trim_start().to_ascii_uppercase();
-                !(up.starts_with("NODE LIST") || up.starts_with("EDGE LIST") || up.starts_with("FIND "))
+            1 if cp => Entry::ParsedAsync,
+            // NODE LIST / EDGE LIST / FIND build a tokio runtime of their own and block on it; awaited
+            // from any runtime they panic ("Cannot start a runtime from within a runtime"). That is a
+            // defect of the async entry point but not one of this property, so they stay synchronous.
+            2 if !(up.starts_with("NODE LIST") || up.starts_with("EDGE LIST") || up.starts_with("FIND ")) => Entry::ParsedAsync,
+            3 if cp => Entry::Stmt,
+            4 if cp => Entry::StmtAsync,
+            5 => Entry::Stmt,
+            _ => Entry::Parsed,
+        }
+    }
+
+    /// one statement through the entry point this case uses for it
+    fn run_text(&self, s: &str) -> Result<QueryResult, String> {
+        match self.entry_for(s) {
+            Entry::Parsed => self.router.execute_parsed(s).map_err(|e| e.to_string()),
+            Entry::ParsedAsync => self.rt.block_on(self.router.execute_parsed_async(s)).map_err(|e| e.to_string()),
+            e => {
+                let stmt = match neumann_parser::parse(s) {
+                    Ok(st) => st,
+                    Err(pe) => return Err(format!("Parse error: {}", pe.format_with_source(s))),
+                };
+                if e == Entry::Stmt {
+                    self.router.execute_statement(&stmt).map_err(|e| e.to_string())
+                } else {
+                    self.rt.block_on(self.router.execute_statement_async(&stmt)).map_err(|e| e.to_string())
+                }
             }
         }
     }
 
-    /// one statement through the text entry point this case uses for it
-    fn run_text(&self, s: &str) -> Result<QueryResult, String> {
-        if self.goes_async(s) {
-            self.rt.block_on(self.router.execute_parsed_async(s)).map_err(|e| e.to_string())
-        } else {
-            self.router.execute_parsed(s).map_err(|e| e.to_string())
+    fn entry_tag(&self) -> &'static str {
+        match self.last_rb_entry {
+            Entry::Parsed => "",
+            Entry::ParsedAsync => "+async-entry",
+            Entry::Stmt => "+statement-entry",
+            Entry::StmtAsync => "+async-statement-entry",
         }
     }
 
@@ -753,9 +792,15 @@ impl Runner {
             count(&mut self.counters, "rollbacks_repeated_same_target", 1);
         }
         self.last_rb = Some(label);
-        self.last_rb_async = self.goes_async(&text);
-        if self.last_rb_async {
-            count(&mut self.counters, "rollbacks_through_async_entry", 1);
+        self.last_rb_entry = self.entry_for(&text);
+        match self.last_rb_entry {
+            Entry::Parsed => {}
+            Entry::ParsedAsync => count(&mut self.counters, "rollbacks_through_async_entry", 1),
+            Entry::Stmt => count(&mut self.counters, "rollbacks_through_statement_entry", 1),
+            Entry::StmtAsync => {
+                count(&mut self.counters, "rollbacks_through_async_entry", 1);
+                count(&mut self.counters, "rollbacks_through_statement_entry", 1);
+            }
         }
         self.constraint_stmt_since_rb = false;
 
@@ -784,7 +829,7 @@ impl Runner {
                     } else {
                         (q.class, nature)
                     };
-                    let sig = format!("rollback{}{}:{}:{}", if self.last_rb_async { "+async-entry" } else { "" }, if self.cfg.qcache { "+query-cache" } else { "" }, class, nature);
+                    let sig = format!("rollback{}{}:{}:{}", self.entry_tag(), if self.cfg.qcache { "+query-cache" } else { "" }, class, nature);
                     let e = seen.entry(sig).or_insert((0, String::new()));
                     e.0 += 1;
                     if e.1.is_empty() {
@@ -863,11 +908,7 @@ impl Runner {
             Some(l) => format!("after the last ROLLBACK TO cp{}:", l),
             None => "(no rollback yet):".to_string(),
         };
-        let pfx = match (self.last_rb.is_some(), self.last_rb_async) {
-            (true, true) => "post-rollback-write+async-entry",
-            (true, false) => "post-rollback-write",
-            _ => "write",
-        };
+        let pfx = if self.last_rb.is_some() { format!("post-rollback-write{}", self.entry_tag()) } else { "write".to_string() };
         macro_rules! bad {
             ($kind:expr, $nature:expr, $($arg:tt)*) => {{
                 let d = format!($($arg)*);
@@ -1605,20 +1646,25 @@ fn retention_plan(rng: &mut Rng, cfg: &Cfg) -> Vec<Seg> {
 
 fn cycle_cfg(rng: &mut Rng) -> Cfg {
     let variant = rng.below(20);
+    let qcache = variant < 3;
+    // with the query cache on, the entry points that bypass execute_parsed's own cache handling for the
+    // checkpoint statements get a larger share
+    let mode = if qcache { [0u8, 1, 2, 3, 4, 3, 4, 5][rng.below(8)] } else { [0u8, 0, 0, 1, 2, 3, 4, 5][rng.below(8)] };
     Cfg {
         auto_cp: rng.chance(1, 4),
-        qcache: variant < 2,
+        qcache,
         dim: if rng.chance(1, 6) { 384 } else { 4 },
         max_cp: 100,
         strict_retention: false,
-        hnsw: (2..5).contains(&variant),
-        btree: (5..9).contains(&variant),
-        async_mode: [0u8, 0, 1, 2][rng.below(4)],
+        hnsw: (3..6).contains(&variant),
+        btree: (6..10).contains(&variant),
+        async_mode: mode,
+        bloom: rng.chance(1, 4),
     }
 }
 
 fn retention_cfg(rng: &mut Rng) -> Cfg {
-    Cfg { auto_cp: false, qcache: false, dim: 4, max_cp: 1 + rng.below(3), strict_retention: true, hnsw: false, btree: false, async_mode: [0u8, 1, 2][rng.below(3)] }
+    Cfg { auto_cp: false, qcache: false, dim: 4, max_cp: 1 + rng.below(3), strict_retention: true, hnsw: false, btree: false, async_mode: [0u8, 1, 2, 3, 4, 5][rng.below(6)], bloom: rng.chance(1, 4) }
 }
 
 // ------------------------------------------------------------------------------------------------
@@ -1693,14 +1739,18 @@ fn script_text(items: &[Item]) -> String {
 
 fn cfg_text(cfg: &Cfg) -> String {
     format!(
-        "router: QueryRouter::new() + init_blob() + init_checkpoint_with_config(max_checkpoints={}, auto_checkpoint={}){}; {}",
+        "router: {} + init_blob() + init_checkpoint_with_config(max_checkpoints={}, auto_checkpoint={}){}; {}",
+        if cfg.bloom { "QueryRouter::with_shared_store(TensorStore::with_bloom_filter(10_000, 0.01))" } else { "QueryRouter::new()" },
         cfg.max_cp,
         cfg.auto_cp,
         if cfg.qcache { " + init_cache()" } else { "" },
         match cfg.async_mode {
             0 => "all statements through execute_parsed",
             1 => "CHECKPOINT / ROLLBACK TO / CHECKPOINTS through execute_parsed_async (current-thread tokio runtime), everything else through execute_parsed",
-            _ => "all statements through execute_parsed_async (current-thread tokio runtime)",
+            2 => "all statements through execute_parsed_async (current-thread tokio runtime)",
+            3 => "CHECKPOINT / ROLLBACK TO / CHECKPOINTS through neumann_parser::parse + execute_statement, everything else through execute_parsed",
+            4 => "CHECKPOINT / ROLLBACK TO / CHECKPOINTS through neumann_parser::parse + execute_statement_async (current-thread tokio runtime), everything else through execute_parsed",
+            _ => "all statements through neumann_parser::parse + execute_statement",
         }
     )
 }
@@ -1740,7 +1790,10 @@ fn report_outcome(part: &str, case_seed: u64, cfg: &Cfg, o: Outcome, report: &mu
         report.count("cases_with_btree_index", 1);
     }
     if cfg.async_mode > 0 {
-        report.count(&format!("cases_with_async_entry[mode{}]", cfg.async_mode), 1);
+        report.count(&format!("cases_with_entry_mode[{}]", cfg.async_mode), 1);
+    }
+    if cfg.bloom {
+        report.count("cases_with_bloom_filter_store", 1);
     }
     if cfg.dim == 384 {
         report.count("cases_with_384_dim_vectors", 1);
@@ -1867,7 +1920,7 @@ fn main() {
             "legacy-path SIMILAR answers recorded while a VectorEngine HNSW cache built by the harness was live are approximate and are not compared; a correct rollback is expected to invalidate that cache like every write path of VectorEngine does".into(),
             "an index built with QueryRouter::build_vector_index() is never built: it is a manual snapshot no write refreshes and its scores differ from the exact search in the last bit".into(),
             "with the router's query cache on, only relational statements are issued (graph/vector writes never invalidate that cache, which is outside this property)".into(),
-            "half of the programs use the async text entry point (execute_parsed_async driven by a current-thread tokio runtime) for the checkpoint statements or for all statements; the oracle is the same".into(),
+            "five eighths of the programs use another entry point than execute_parsed (execute_parsed_async, parse + execute_statement, parse + execute_statement_async) for the checkpoint statements or for all statements, and a quarter run on a store with a Bloom filter; the oracle is the same".into(),
             "set-up calls that are not statements: VectorEngine::build_and_cache_index and RelationalEngine::create_btree_index (the router has no statement for either)".into(),
             "programs are capped at 9 checkpoints in total because every checkpoint image embeds all earlier images (size doubles per checkpoint)".into(),
             "answers that are engine query-deadline errors are counted inconclusive, never compared".into(),
@@ -1882,6 +1935,8 @@ fn main() {
                 ("battery_writes_checked", args.by_tier(200, 4_000)),
                 ("retention_creations", args.by_tier(6, 60)),
                 ("rollbacks_through_async_entry", args.by_tier(30, 600)),
+                ("rollbacks_through_statement_entry", args.by_tier(30, 600)),
+                ("cases_with_bloom_filter_store", args.by_tier(15, 300)),
                 ("write_statements_ok", args.by_tier(1_000, 20_000)),
             ]
         },
